@@ -50,6 +50,15 @@ def decide(test, cell, names):
         s = src(n)
         if isinstance(n, ast.Name) and s in names.get('aliases', {}):
             return term(names['aliases'][s])
+        if isinstance(n, ast.Name) and s in names.get('loop_aliases', {}):
+            # a temporary of the iteration: the value its expression had when it was assigned (the part may have been cut since)
+            node_, snap = names['loop_aliases'][s]
+            return ('SNAP', term(node_), snap)
+        if isinstance(n, ast.Call) and src(n.func) == 'len' and len(n.args) == 1 and isinstance(n.args[0], ast.Name) \
+                and n.args[0].id in names.get('loop_aliases', {}):
+            node_, snap = names['loop_aliases'][n.args[0].id]
+            if term(node_) == 'P':
+                return ('SNAP', 'LPFX', snap)       # len(part[:length]) = min(len(part), length)
         if s == 'len(%s)' % names.get('number', '\0'):
             return 'LN'
         if s == 'len(%s)' % part:
@@ -70,6 +79,25 @@ def decide(test, cell, names):
         raise AnalysisError('%s: _find guard uses the term `%s`, which is not one of len(part), length, low, high, part[:length]' % (FILE, s))
 
     def rel(x, y):
+        c_ = cell
+        if isinstance(x, tuple) and x[0] == 'SNAP':
+            x, c_ = x[1], x[2]
+        if isinstance(y, tuple) and y[0] == 'SNAP':
+            y, c_ = y[1], y[2]
+        if c_ is not cell:
+            return decide_rel(x, y, c_)
+        return decide_rel(x, y, cell)
+
+    def decide_rel(x, y, cell):
+        if isinstance(x, tuple) and x[0] == 'SNAP':
+            x = x[1]
+        if isinstance(y, tuple) and y[0] == 'SNAP':
+            y = y[1]
+        # length of the cut prefix against the length of the range: equal iff the part is long enough, else shorter
+        if (x, y) == ('LPFX', 'LEN'):
+            return 0 if cell.a >= 0 else -1
+        if (x, y) == ('LEN', 'LPFX'):
+            return 0 if cell.a >= 0 else 1
         table = {('LP', 'LEN'): cell.a, ('LOW', 'P'): cell.b, ('P', 'HIGH'): cell.c, ('LN', 'LEN'): cell.d}
         if (x, y) in table:
             return table[(x, y)]
@@ -121,6 +149,10 @@ def classify(st, names):
     P, C = names['acc_props'], names['acc_children']
     s = src(st)
     if s in ('%s = %s[:%s]' % (part, part, length), '%s = %s[0:%s]' % (part, part, length)):
+        return 'shrink'
+    if isinstance(st, ast.Assign) and len(st.targets) == 1 and src(st.targets[0]) == part and isinstance(st.value, ast.Name) \
+            and st.value.id in names.get('loop_aliases', {}) and src(names['loop_aliases'][st.value.id][0]) in ('%s[:%s]' % (part, length), '%s[0:%s]' % (part, length)) \
+            and names['loop_aliases'][st.value.id][1].a == names['_cell'].a:
         return 'shrink'
     if s in ('%s = {}' % P, '%s = dict()' % P):
         return 'reset-props'
@@ -193,11 +225,22 @@ def run_body(body, cell, names, bits=None, extra=None):
                 acts.append('OTHER:' + src(st))
                 return True
             else:
+                names['_cell'] = cell
+                if isinstance(st, ast.Assign) and len(st.targets) == 1 and isinstance(st.targets[0], ast.Name) \
+                        and st.targets[0].id not in (names['part'], names['acc_props'], names['acc_children'], names['length'], names['low'], names['high'],
+                                                     names['props'], names['children'], names.get('number')):
+                    # a temporary holding one of the atoms (len(part), part[:length], ...)
+                    v_ = src(st.value)
+                    if v_ in ('len(%s)' % names['part'], '%s[:%s]' % (names['part'], names['length']), '%s[0:%s]' % (names['part'], names['length']),
+                              'len(%s)' % names.get('number', '\0')):
+                        names['loop_aliases'][st.targets[0].id] = (st.value, Cell(cell.a, cell.b, cell.c, cell.d))
+                        continue
                 k = classify(st, names)
                 acts.append(k)
                 if k == 'shrink':
                     cell.a = 0      # len(part) == length from here on
         return False
+    names['loop_aliases'] = {}
     block(body)
     return acts
 
@@ -308,9 +351,19 @@ def check_find(rep, methods):
     tail = body[li + 1:]
     ret = tail[-1] if tail else None
     ok_ret = False
-    if isinstance(ret, ast.Return) and ret.value is not None and len(tail) == 1:
+    simple_tail = all(isinstance(st, ast.Assign) and len(st.targets) == 1 and isinstance(st.targets[0], ast.Name)
+                      and st.targets[0].id not in (names['part'], names['acc_props'], names['acc_children'], number) for st in tail[:-1])
+    if isinstance(ret, ast.Return) and ret.value is not None and simple_tail:
+        rv = ret.value
+        if len(tail) > 1:
+            from ..match import _Subst
+            import copy
+            sub = {}
+            for st in tail[:-1]:
+                sub[st.targets[0].id] = _Subst(dict(sub)).visit(copy.deepcopy(st.value))
+            rv = _Subst(sub).visit(copy.deepcopy(rv))
         for callee in ('NumDB._find', 'cls._find', 'self._find', '_find'):
-            if match_expr('[(%s, %s)] + %s(%s[len(%s):], %s)' % (names['part'], names['acc_props'], callee, number, names['part'], names['acc_children']), ret.value) is not None:
+            if match_expr('[(%s, %s)] + %s(%s[len(%s):], %s)' % (names['part'], names['acc_props'], callee, number, names['part'], names['acc_children']), rv) is not None:
                 ok_ret = True
     rep.check(ok_ret, 'DT.result', FILE, '_find', src(ret) if ret is not None else 'return', getattr(ret, 'lineno', fn.lineno),
               'the result is not [(part, properties)] + _find(number[len(part):], next_prefixes): parts would not concatenate to the '
@@ -448,15 +501,27 @@ def check_layout(rep, methods, funcs, names):
                         t_ok = src(inner[1].value) in ('(%s, %s)' % (a_, b_),)
                     okb = t_ok and src(hb[1].value) == '(%s, %s)' % (hp, hp)
     if okb is None:
+        # low, _, high = r.partition('-') with `high or low` yielded as the upper end: both ends of `a-b`, the single value twice
+        for st in rng_loop.body:
+            if isinstance(st, ast.Assign) and isinstance(st.targets[0], ast.Tuple) and len(st.targets[0].elts) == 3 and src(st.value) == "%s.partition('-')" % r:
+                lo_, _sep, hi_ = [src(e) for e in st.targets[0].elts]
+                where = st
+                okb = y[2] == lo_ and y[3] in ('%s or %s' % (hi_, lo_), '%s if %s else %s' % (hi_, hi_, lo_)) and y[1] == 'len(%s)' % lo_
+    if okb is None:
         raise AnalysisError('%s:%d _parse: how low/high are derived from a range is not recognised' % (FILE, rng_loop.lineno))
     rep.check(okb, 'DT.layout', FILE, '_parse', src(where), where.lineno,
               'low/high are not (both ends of `a-b`) or (the single value twice)')
     # read(): for <6 names> in _parse(fp): ... stack[indent].append([5 names])
     loops = [n for n in ast.walk(read) if isinstance(n, ast.For) and src(n.iter).startswith('_parse(')]
-    if len(loops) != 1 or not isinstance(loops[0].target, ast.Tuple) or len(loops[0].target.elts) != 6:
+    starred = None
+    if len(loops) == 1 and isinstance(loops[0].target, ast.Tuple) and len(loops[0].target.elts) == 2 and isinstance(loops[0].target.elts[0], ast.Name) \
+            and isinstance(loops[0].target.elts[1], ast.Starred) and isinstance(loops[0].target.elts[1].value, ast.Name):
+        # for indent, *entry in _parse(fp): the rest of the yielded tuple, as a fresh list, in the order _parse yields it
+        starred = loops[0].target.elts[1].value.id
+    elif len(loops) != 1 or not isinstance(loops[0].target, ast.Tuple) or len(loops[0].target.elts) != 6:
         raise AnalysisError('%s:%d read() has no `for indent, length, low, high, props, children in _parse(fp)` loop' % (FILE, read.lineno))
     loop = loops[0]
-    t = [src(e) for e in loop.target.elts]
+    t = [src(e) for e in loop.target.elts] if starred is None else [src(loop.target.elts[0])] + y[1:]
     apps = [n for n in ast.walk(loop) if isinstance(n, ast.Call) and isinstance(n.func, ast.Attribute) and n.func.attr == 'append']
     # one entry per parsed range, stored unconditionally, and never modified once stored (the ranges of one line share one
     # properties dict: changing it through one entry changes them all)
@@ -473,9 +538,17 @@ def check_layout(rep, methods, funcs, names):
                  'that line changes too' % src(n.func)[:60])
     if (apps and not direct) or muts:
         return
-    if len(apps) != 1 or len(apps[0].args) != 1 or not isinstance(apps[0].args[0], (ast.List, ast.Tuple)):
+    if starred is not None and len(apps) == 1 and len(apps[0].args) == 1 and isinstance(apps[0].args[0], ast.Name) and apps[0].args[0].id == starred:
+        # the starred name is bound once per iteration and stored as it is
+        rebinds = [x for x in ast.walk(loop) if isinstance(x, ast.Name) and x.id == starred and isinstance(x.ctx, ast.Store)]
+        uses = [x for x in ast.walk(loop) if isinstance(x, ast.Name) and x.id == starred and isinstance(x.ctx, ast.Load)]
+        if len(rebinds) != 1 or len(uses) != 1:
+            raise AnalysisError('%s:%d read(): the starred entry %s is used in more than the append' % (FILE, read.lineno, starred))
+        entry = list(y[1:])
+    elif len(apps) != 1 or len(apps[0].args) != 1 or not isinstance(apps[0].args[0], (ast.List, ast.Tuple)):
         raise AnalysisError('%s:%d read() does not append one entry per parsed range' % (FILE, read.lineno))
-    entry = [src(e) for e in apps[0].args[0].elts]
+    else:
+        entry = [src(e) for e in apps[0].args[0].elts]
     rep.check(entry == t[1:], 'DT.layout', FILE, 'read', src(apps[0]), apps[0].lineno,
               'entry %r stored by read() is not the (length, low, high, props, children) tuple %r that _parse yields and _find unpacks'
               % (entry, t[1:]))
@@ -529,29 +602,40 @@ def check_source(rep, funcs):
             and isinstance(x.elt, ast.Name) and isinstance(x.generators[0].target, ast.Name) and x.elt.id == x.generators[0].target.id
     n_sites = 0
     for fname, callee in (('get', 'read'), ('read', '_parse')):
-        fn = funcs.get(fname)
-        if fn is None:
+        fn0 = funcs.get(fname)
+        if fn0 is None:
             raise AnalysisError('%s: %s() vanished' % (FILE, fname))
-        for c in ast.walk(fn):
-            if isinstance(c, ast.Call) and isinstance(c.func, ast.Name) and c.func.id == callee and c.args:
-                n_sites += 1
-                x = c.args[0]
-                while identity(x):
-                    x = x.generators[0].iter
-                bad = None
-                if isinstance(x, (ast.GeneratorExp, ast.ListComp, ast.SetComp)):
-                    bad = 'a comprehension over the lines'
-                elif isinstance(x, ast.Call) and src(x.func) in ('map', 'filter', 'sorted', 'reversed', 'list', 'set', 'iter', 'enumerate', 'zip'):
-                    bad = '%s(...) over the lines' % src(x.func)
-                elif isinstance(x, ast.Name):
-                    # the name must not be rebound to a transformed iterable inside the function
-                    for a in ast.walk(fn):
-                        if isinstance(a, ast.Assign) and any(isinstance(t, ast.Name) and t.id == x.id for t in a.targets) \
-                                and isinstance(a.value, (ast.GeneratorExp, ast.ListComp)) and not identity(a.value):
-                            bad = '`%s`' % src(a)[:80]
-                rep.check(bad is None, 'DT.source', FILE, fname, src(c)[:120], c.lineno,
-                          '%s() hands %s to %s(): the registry is parsed from rewritten or filtered lines, so the properties attached to a part '
-                          'are not those written in the file' % (fname, bad, callee), what='%s(%s)' % (callee, src(c.args[0])[:40]))
+        # the call may sit in a private helper of the function (get() -> _load() -> read())
+        fns, todo = [], [fn0]
+        while todo:
+            f_ = todo.pop()
+            if f_ in fns:
+                continue
+            fns.append(f_)
+            for c in ast.walk(f_):
+                if isinstance(c, ast.Call) and isinstance(c.func, ast.Name) and c.func.id.startswith('_') and c.func.id in funcs and c.func.id != callee:
+                    todo.append(funcs[c.func.id])
+        for fn in fns:
+          for c in ast.walk(fn):
+              if isinstance(c, ast.Call) and isinstance(c.func, ast.Name) and c.func.id == callee and c.args:
+                  n_sites += 1
+                  x = c.args[0]
+                  while identity(x):
+                      x = x.generators[0].iter
+                  bad = None
+                  if isinstance(x, (ast.GeneratorExp, ast.ListComp, ast.SetComp)):
+                      bad = 'a comprehension over the lines'
+                  elif isinstance(x, ast.Call) and src(x.func) in ('map', 'filter', 'sorted', 'reversed', 'list', 'set', 'iter', 'enumerate', 'zip'):
+                      bad = '%s(...) over the lines' % src(x.func)
+                  elif isinstance(x, ast.Name):
+                      # the name must not be rebound to a transformed iterable inside the function
+                      for a in ast.walk(fn):
+                          if isinstance(a, ast.Assign) and any(isinstance(t, ast.Name) and t.id == x.id for t in a.targets) \
+                                  and isinstance(a.value, (ast.GeneratorExp, ast.ListComp)) and not identity(a.value):
+                              bad = '`%s`' % src(a)[:80]
+                  rep.check(bad is None, 'DT.source', FILE, fname, src(c)[:120], c.lineno,
+                            '%s() hands %s to %s(): the registry is parsed from rewritten or filtered lines, so the properties attached to a part '
+                            'are not those written in the file' % (fname, bad, callee), what='%s(%s)' % (callee, src(c.args[0])[:40]))
     if n_sites < 2:
         raise AnalysisError('%s: the calls get() -> read() -> _parse() were not found' % FILE)
 
